@@ -113,6 +113,15 @@ func (prop) Run(t *testing.T, s *sim.Sim, res *runner.Result) {
 					x.SetFinalizers(nil)
 					if w.Direct.Update(ctx, x) == nil && w.Direct.Delete(ctx, x) == nil {
 						w.S.Probe("xr-force-deleted")
+						if s.Tape.Next(2) == 0 {
+							// ... and created again at once under the same name (what its claim
+							// would do at its next reconcile): same spec, a new object
+							n := &unstructured.Unstructured{Object: map[string]any{"apiVersion": x.GetAPIVersion(), "kind": x.GetKind(),
+								"metadata": map[string]any{"name": x.GetName(), "labels": x.Object["metadata"].(map[string]any)["labels"]}, "spec": x.Object["spec"]}}
+							if w.Direct.Create(ctx, n) == nil {
+								w.S.Probe("xr-created-again-under-the-same-name")
+							}
+						}
 					}
 				}})
 			}
